@@ -125,10 +125,10 @@ impl<'a> Iterator for IterBlocks<'a> {
 			let block_size = block.image.SizeOfBlock;
 			// Avoid infinite loop by skipping at least the image base relocation header
 			let block_size = cmp::max(block_size, mem::size_of::<IMAGE_BASE_RELOCATION>() as u32);
-			// Ensure that the data pointer remains dword aligned $1
-			let block_size = block_size.align_to(4);
-			// Clamp the length to the data size
+			// Clamp the length to the data size before aligning, a block size near u32::MAX must not wrap to zero
 			let block_size = cmp::min(block_size as usize, self.data.len());
+			// Ensure that the data pointer remains dword aligned $1
+			let block_size = cmp::min(block_size.align_to(4), self.data.len());
 			self.data = &self.data[block_size..];
 			Some(block)
 		}
